@@ -32,9 +32,10 @@ def propagate_viability_from_node(node: AttackGraphNode) -> None:
     for child in node.children:
         original_value = child.is_viable
         if child.type == 'or':
-            child.is_viable = False
-            for parent in child.parents:
-                child.is_viable = child.is_viable or parent.is_viable
+            # Evaluate before assigning: a step can be its own parent
+            child.is_viable = any(
+                parent.is_viable for parent in child.parents
+            )
         if child.type == 'and':
             child.is_viable = False
 
@@ -73,10 +74,11 @@ def propagate_necessity_from_node(node: AttackGraphNode) -> None:
         if child.type == 'or':
             child.is_necessary = False
         if child.type == 'and':
-            child.is_necessary = False
-            for parent in child.parents:
-                child.is_necessary = child.is_necessary or \
-                    parent.is_necessary or _has_ttc_distribution(parent)
+            # Evaluate before assigning: a step can be its own parent
+            child.is_necessary = any(
+                parent.is_necessary or _has_ttc_distribution(parent)
+                for parent in child.parents
+            )
 
         # TODO: Update TTC for child attack step before if it is not necessary
         # before propagating it further.
